@@ -159,7 +159,8 @@ const inlineMax = 40
 
 type termText struct {
 	text string
-	deps []*Term // vars, uf applications, fresh constants and named subterms the text mentions
+	deps []*Term // vars, fresh constants and named subterms the text mentions
+	ufs  []*Term // uf applications whose function symbol must be declared
 }
 
 func (s *Solver) treeSize(t *Term) int {
@@ -219,7 +220,7 @@ func (s *Solver) bodyOf(t *Term) *termText {
 	var sb strings.Builder
 	if strings.HasPrefix(t.op, "uf:") {
 		sb.WriteString("(" + smtName(t.op[3:]))
-		tx.deps = append(tx.deps, t)
+		tx.ufs = append(tx.ufs, t)
 	} else {
 		sb.WriteString("(" + t.head())
 	}
@@ -228,6 +229,7 @@ func (s *Solver) bodyOf(t *Term) *termText {
 		at := s.textOf(a)
 		sb.WriteString(at.text)
 		tx.deps = append(tx.deps, at.deps...)
+		tx.ufs = append(tx.ufs, at.ufs...)
 	}
 	sb.WriteByte(')')
 	tx.text = sb.String()
@@ -237,23 +239,26 @@ func (s *Solver) bodyOf(t *Term) *termText {
 	return tx
 }
 
-func (s *Solver) ensure(deps []*Term) {
-	for _, d := range deps {
-		if strings.HasPrefix(d.op, "uf:") {
-			fn := d.op[3:]
-			if !s.ufDeclared[fn] {
-				if s.ufDeclared == nil {
-					s.ufDeclared = map[string]bool{}
-				}
-				s.ufDeclared[fn] = true
-				var as []string
-				for _, a := range d.args {
-					as = append(as, a.sort.String())
-				}
-				s.send(fmt.Sprintf("(declare-fun %s (%s) %s)", smtName(fn), strings.Join(as, " "), d.sort))
+func (s *Solver) ensureUFs(ufs []*Term) {
+	for _, d := range ufs {
+		fn := d.op[3:]
+		if !s.ufDeclared[fn] {
+			if s.ufDeclared == nil {
+				s.ufDeclared = map[string]bool{}
 			}
-			continue
+			s.ufDeclared[fn] = true
+			var as []string
+			for _, a := range d.args {
+				as = append(as, a.sort.String())
+			}
+			s.send(fmt.Sprintf("(declare-fun %s (%s) %s)", smtName(fn), strings.Join(as, " "), d.sort))
 		}
+	}
+}
+
+func (s *Solver) ensure(tx *termText) {
+	s.ensureUFs(tx.ufs)
+	for _, d := range tx.deps {
 		if s.defined[d.id] {
 			continue
 		}
@@ -272,7 +277,7 @@ func (s *Solver) ensure(deps []*Term) {
 				}
 				s.bodies[d] = b
 			}
-			s.ensure(b.deps)
+			s.ensure(b)
 			// declare + equate: z3 expands define-fun macros eagerly (≈1 ms each when nested)
 			s.send(fmt.Sprintf("(declare-fun t%d () %s)", d.id, d.sort))
 			s.send(fmt.Sprintf("(assert (= t%d %s))", d.id, b.text))
@@ -282,7 +287,7 @@ func (s *Solver) ensure(deps []*Term) {
 
 func (s *Solver) ref(t *Term) string {
 	tx := s.textOf(t)
-	s.ensure(tx.deps)
+	s.ensure(tx)
 	return tx.text
 }
 
